@@ -383,7 +383,7 @@ func c05Eval(tb fataler, c hostileCase, class string) {
 }
 
 func TestC05_Hostile(t *testing.T) {
-	runRapid(t, "C05_Hostile", nCases(60_000, 1_500_000), func(t *rapid.T) {
+	runRapid(t, "C05_Hostile", nCases(60_000, 1_000_000), func(t *rapid.T) {
 		in, class := genHostile(t)
 		c := hostileCase{In: in, ND: rapid.IntRange(0, 3).Draw(t, "nd") == 0, Guard: rapid.IntRange(0, 2).Draw(t, "guard")}
 		if rapid.IntRange(0, 3).Draw(t, "reuse") == 0 {
